@@ -6,9 +6,14 @@ From Coq Require Import List Arith NArith Bool.
 From RlibV Require Import Common.Batch C17.Model.
 Import ListNotations.
 
-(** [solo]: priorities drawn by ONE fresh thread creating (sum of lengths) nodes;
-    [lists]: priorities drawn by each of the concurrently running threads;
-    [results_equal]: every thread's treap observations equalled those of the same program run alone *)
+(** [solo]: priorities drawn by ONE fresh thread creating (sum of lengths) nodes by direct [TreapNode::new] calls;
+    [lists]: for each logical thread of the run, the priority of EVERY node it created, in creation order,
+      whatever the constructor path (direct [TreapNode::new] through several instantiations, [Treap::insert_at],
+      [Treap::from_item]), read back through the public field; the threads are started by one of several
+      topologies (barrier, main thread included, nested spawn, one after the other, a treap handed to another thread);
+    [results_equal]: every thread's treap program gave the results it gives when run alone AND every integrity
+      check inside the executor held (shadow sequence, heap order, aggregates, the priority stored in a node is
+      the one recorded at its creation) *)
 Inductive case := CSpawn (d : discipline) (solo : list N) (lists : list (list N)) (results_equal : bool).
 
 Definition leqN := leqb N.eqb.
